@@ -6,7 +6,13 @@
    in the output) and how many runs (hash seeds x construction orders) showed
    exactly that.  A line is accepted iff the observation is the one the model
    computes with every enumeration sorted; other lines are listed (@@BAD@@)
-   and validation goes on. *)
+   and validation goes on.
+
+   Lines with prog = "@rng" are sequences of seeded random numbers: the seed
+   handed to set_seed, the draws (<<a, b>>: an int in [a, b); <<0, 0>>: the
+   decimal form, recorded as its numerator over 233280) and the numbers the
+   interpreter printed; accepted iff they are the numbers of the generator
+   of OrderOps (RngDraws). *)
 EXTENDS OrderOps, Json, IOUtils
 
 Trace == ndJsonDeserialize(IOEnv.TRACE_FILE)
@@ -24,9 +30,12 @@ Step ==
   /\ l <= Len(Trace)
   /\ l' = l + 1
   /\ runs' = runs + Ev.n
-  /\ IF Known(Ev.prog)
-     THEN LET want == RefEval(Programs[ProgIdx(Ev.prog)].stages, ToSet(Ev.elems))
-          IN  Ev.obs = want \/ Bad(want)
+  /\ IF Ev.prog = "@rng"
+     THEN (LET want == RngDraws(Ev.seed, Ev.draws)
+           IN  Ev.obs = want \/ Bad(want))
+     ELSE IF Known(Ev.prog)
+     THEN (LET want == RefEval(Programs[ProgIdx(Ev.prog)].stages, ToSet(Ev.elems))
+           IN  Ev.obs = want \/ Bad(want))
      ELSE Bad(<<-2>>)
   /\ (l = Len(Trace) => PrintT("@@DONE@@" \o ToJson([n |-> l, runs |-> runs'])))
 
